@@ -44,6 +44,7 @@ def Quote(blocks): return N('quote', blocks=blocks)
 def List(ordered, tight, items): return N('list', ordered=ordered, tight=tight, items=items)
 def Table(header, aligns, rows, caption=None): return N('table', header=header, aligns=aligns, rows=rows, caption=caption)
 def Figure(alt, url, title=None): return N('figure', alt=alt, url=url, title=title)
+def CellSpan(ch, n): return N('cellspan', ch=ch, n=n)        # a table cell spanning n columns ("| a || b |")
 def DefList(entries): return N('deflist', entries=entries)       # entries: list of (term inlines, [def inlines...])
 def Doc(blocks, footnotes=None, meta=None): return N('doc', blocks=blocks, footnotes=footnotes or {}, meta=meta or [])
 
@@ -150,7 +151,10 @@ class Serializer:
         if k == 'para':
             return self.inl(b.ch).split('\n')
         if k == 'heading':
+            # '_' is a label character: emphasis inside a heading is always spelled with '*' so that the id does not depend on the spelling
+            keep, sp.emph = sp.emph, '*'
             t = self.inl(b.ch)
+            sp.emph = keep
             lab = (' [%s]' % b.label) if b.label else ''
             if sp.setext and b.level <= 2 and not lab and '\n' not in t:
                 return [t, ('=' if b.level == 1 else '-') * max(3, len(t))]
@@ -193,7 +197,13 @@ class Serializer:
             return out
         if k == 'table':
             def row(cells):
-                return '| ' + ' | '.join(self.inl(c) for c in cells) + ' |'
+                out = '|'
+                for c in cells:
+                    if isinstance(c, N) and c.kind == 'cellspan':
+                        out += ' ' + self.inl(c.ch) + ' |' + '|' * (c.n - 1)
+                    else:
+                        out += ' ' + self.inl(c) + ' |'
+                return out
             sep = '|' + '|'.join({'l': ':---', 'r': '---:', 'c': ':---:', 'n': '----'}[a] for a in b.aligns) + '|'
             out = [row(b.header), sep] + [row(r) for r in b.rows]
             if b.caption:
@@ -336,6 +346,10 @@ class Gen:
 
     def heading(self):
         t = [Text(self.words(1, 3, 'h'))]
+        if 'heading-inlines' in self.f and self.r.random() < 0.5:
+            k = self.r.choice(['emph', 'strong', 'code'])
+            node = Emph([Text(self.word('h'))]) if k == 'emph' else Strong([Text(self.word('h'))]) if k == 'strong' else Code(self.word('h') + self.r.choice(['', ' <b', ' & x']))
+            t += [Text(' '), node] + ([Text(' ' + self.word('h'))] if self.r.random() < 0.5 else [])
         return Heading(self.r.randint(1, 6), t)
 
     def block(self, depth=0):
@@ -384,8 +398,14 @@ class Gen:
             return List(r.random() < 0.4, tight, items)
         if k < 0.90 and 'table' in f and depth == 0:
             nc = r.randint(1, 4)
-            return Table([self.inlines(1, 1, {'emph', 'code'}) for _ in range(nc)], [r.choice('lrcn') for _ in range(nc)],
-                         [[self.inlines(1, 1, {'emph', 'strong', 'code'}) for _ in range(nc)] for _ in range(r.randint(1, 3))],
+            rows = [[self.inlines(1, 1, {'emph', 'strong', 'code'}) for _ in range(nc)] for _ in range(r.randint(1, 3))]
+            if 'colspan' in f and nc >= 2:
+                for row in rows:
+                    if r.random() < 0.4:
+                        n = r.randint(2, nc)
+                        at = r.randint(0, nc - n)
+                        row[at:at + n] = [CellSpan(row[at], n)]
+            return Table([self.inlines(1, 1, {'emph', 'code'}) for _ in range(nc)], [r.choice('lrcn') for _ in range(nc)], rows,
                          r.choice([None, None, 'Caption ' + self.word('u')]))
         if k < 0.95 and 'deflist' in f and depth == 0:
             return DefList([([Text(self.words(1, 2))], [self.inlines(1, 1) for _ in range(r.randint(1, 2))]) for _ in range(r.randint(1, 2))])
